@@ -103,10 +103,13 @@ structure IT (α : Type) where
 namespace IT
 
 /-- the forward map, written twice in the source (constructor l.187-189 and
-`setOriginalValue` l.203-205) with the same expression -/
+`setOriginalValue` l.205-207) with the same expression.  In the tangent variant the ratio
+`(value - lo) / (hi - lo)` is computed first (`fix:` "tangent transform of a value one ulp below the
+upper bound", findings/C11.json): it is at most 1 in floating point, so the angle cannot exceed
+`pi / 2` by rounding. -/
 def fwd (pi scale lo hi : α) (hyper : Bool) (value : α) : α :=
   if hyper then scale * atanh (two * (value - lo) / (hi - lo) - one)
-  else scale * tan (pi * (value - lo) / (hi - lo) - pi / two)
+  else scale * tan (pi * ((value - lo) / (hi - lo)) - pi / two)
 
 /-- the constructor (TransformedParameter.h:186-195): no check of the value -/
 def new (pi value lo hi scale : α) (hyper : Bool) : IT α :=
